@@ -846,6 +846,11 @@ func (m *Machine) step(st *State) (forks []*State) {
 	case *ssa.MapUpdate:
 		mv, ok := m.get(st, fr, x.Map).(MapV)
 		if !ok {
+			if _, isNil := m.get(st, fr, x.Map).(nilV); isNil {
+				st.Status = stPanic
+				st.Msg = "assignment to entry in nil map at " + m.P.Pos(x.Pos())
+				return nil
+			}
 			st.stuck("map update on %T", m.get(st, fr, x.Map))
 			return nil
 		}
